@@ -2,6 +2,7 @@ package scen
 
 import (
 	"context"
+	"errors"
 	"fmt"
 	"sync"
 	"time"
@@ -25,6 +26,7 @@ type c14Pres struct {
 	err        error
 	acked      bool
 	wave       int
+	gaveUp     bool // returned the ended context's error: neither let through nor dropped; presented again
 }
 
 func c14Payload(t *simrt.Tape, keyIdx int, variant int) string {
@@ -48,7 +50,8 @@ func c14Setup(r *Run) simrt.Config {
 	window := time.Duration(1+r.T.Int(50)) * time.Millisecond
 	r.Param("window_ms", int(window/time.Millisecond))
 	c.Horizon = 4*window + 20*time.Millisecond
-	c.Daemons = []string{"middleware.NewMapExpiringKeyRepository"}
+	// the repository's clean-up goroutine ticks for ever: goroutines started inside the middleware package are daemons
+	c.Daemons = []string{"router/middleware."}
 	if r.T.Chance(1, 2) {
 		c.Fine = true
 		// statement-level yields in the whole middleware package: repository, Deduplicator and the hasher closures
@@ -136,12 +139,14 @@ func c14Body(r *Run) {
 		g, wave, keyIdx, variant int
 		cancelledCtx             bool
 	}
-	present := func(j job) {
+	var present func(j job)
+	present = func(j job) {
 		payload := c14Payload(t, j.keyIdx, j.variant)
 		m := message.NewMessage(fmt.Sprintf("w%d-g%d", j.wave, j.g), []byte(payload))
 		m.Metadata.Set("dedup", fmt.Sprintf("field-key-%d", j.keyIdx))
 		if j.cancelledCtx {
-			// the in-memory repository does not depend on the message context: an ended context changes nothing
+			// an ended context: the deduplicator may answer as usual or give up with the context's error, in which case
+			// the message counts as neither let through nor dropped and is presented again (as a broker would redeliver)
 			cctx, ccancel := context.WithCancel(context.Background())
 			ccancel()
 			m.SetContext(cctx)
@@ -169,6 +174,12 @@ func c14Body(r *Run) {
 		ev++
 		p.retEv, p.ret = ev, r.Sim.Now()
 		p.returned = true
+		if j.cancelledCtx && p.err != nil && errors.Is(p.err, context.Canceled) && !p.accepted {
+			p.gaveUp = true
+			r.Probe("deduplicator-gave-up-on-ended-context")
+			j.cancelledCtx = false
+			present(j)
+		}
 	}
 	// plan: every wave each goroutine presents one message
 	plan := make([][]job, waves)
@@ -201,6 +212,9 @@ func c14Check(r *Run, pres []*c14Pres, window time.Duration, useDecorator bool, 
 		if !p.returned {
 			r.Fail("C14.R0", "a presentation to the deduplicator never returned", "%s", p.key)
 			return
+		}
+		if p.gaveUp {
+			continue
 		}
 		if p.err != nil {
 			r.Fail("C14.R0", "the deduplicator returned an error", "%v", p.err)
@@ -268,7 +282,7 @@ func c14Check(r *Run, pres []*c14Pres, window time.Duration, useDecorator bool, 
 			}
 			justified := false
 			for _, a := range ps {
-				if a.accepted && a.invEv < b.retEv && a.ret > b.inv-2*window {
+				if a.accepted && a.invEv < b.retEv && a.ret > b.inv-3*window {
 					justified = true
 				}
 			}
@@ -276,7 +290,7 @@ func c14Check(r *Run, pres []*c14Pres, window time.Duration, useDecorator bool, 
 				sig := "a message was dropped as duplicate although its key had never been accepted"
 				for _, a := range ps {
 					if a.accepted && a.invEv < b.retEv {
-						sig = "a message was dropped as duplicate although its key was last accepted two windows or more earlier"
+						sig = "a message was dropped as duplicate although its key was last accepted three windows or more earlier"
 					}
 				}
 				r.Fail("C14.R2", sig, "key %s presented at %v..%v, window %v", k, b.inv, b.ret, window)
